@@ -934,12 +934,66 @@ Definition m_explicit (m : midline) (v : list val) (q : Qc) (qTi qTc qTe : list 
      ml_mixing := match mixo with Some mix => Some mix | None => ml_mixing m end;
      ml_midext := q; ml_evo := ml_evo m; ml_symL := ml_symL m |}.
 
+Lemma midline_ext m1 m2 : ml_ext m1 = ml_ext m2 -> ml_noext m1 = ml_noext m2 -> ml_central m1 = ml_central m2 ->
+  ml_unknown m1 = ml_unknown m2 -> ml_mixing m1 = ml_mixing m2 -> ml_midext m1 = ml_midext m2 -> ml_evo m1 = ml_evo m2 ->
+  ml_symL m1 = ml_symL m2 -> m1 = m2.
+Proof. destruct m1, m2. cbn. intros; subst; reflexivity. Qed.
+Lemma b_with_with b i c i' c' : b_with (b_with b i c) i' c' = b_with b i' c'.
+Proof. reflexivity. Qed.
+
+(** the fields after each step *)
+Definition put2 (sel : edge -> bool) (b : bilateral) (qi qc : list Qc) : bilateral :=
+  b_with b (u_put_sel sel (b_ipsi b) qi) (u_put_sel sel (b_contra b) qc).
+Lemma tumor_fin_fields mk qTi qTc qTe mixo :
+  let qTec := match mixo with Some mix => mixed mix qTi qTc | None => qTe end in
+  let r := tumor_fin mk qTi qTc qTe mixo in
+  ml_ext r = put2 T (ml_ext mk) qTi qTec /\ ml_noext r = put2 T (ml_noext mk) qTi qTc
+  /\ ml_central r = option_map (fun c => put2 T c qTi qTi) (ml_central mk) /\ ml_unknown r = ml_unknown mk
+  /\ ml_mixing r = match mixo with Some mix => Some mix | None => ml_mixing mk end
+  /\ ml_midext r = ml_midext mk /\ ml_evo r = ml_evo mk /\ ml_symL r = ml_symL mk.
+Proof.
+  unfold tumor_fin, with_central_T, put2. destruct mk as [ext noext central unknown mixing midext evo symL].
+  destruct central as [c|], mixo as [mix|]; cbn; repeat split; reflexivity.
+Qed.
+Lemma lnl_fin_fields m mk qLi qLc :
+  let qLc' := if ml_symL m then qLi else qLc in
+  let r := lnl_fin m mk qLi qLc in
+  ml_ext r = put2 L (ml_ext mk) qLi qLc' /\ ml_noext r = put2 L (ml_noext mk) qLi qLc'
+  /\ ml_central r = option_map (fun c => put2 L c qLi qLc') (ml_central mk) /\ ml_unknown r = ml_unknown mk
+  /\ ml_mixing r = ml_mixing mk /\ ml_midext r = ml_midext mk /\ ml_evo r = ml_evo mk /\ ml_symL r = ml_symL mk.
+Proof.
+  unfold lnl_fin, put_leaf, put2. destruct mk as [ext noext central unknown mixing midext evo symL].
+  destruct central as [c|], (ml_symL m); cbn; repeat split; reflexivity.
+Qed.
+Lemma dist_fin_fields m v mk :
+  let r := dist_fin m v mk in
+  ml_ext r = bi_ds m v (ml_ext mk) /\ ml_noext r = bi_ds m v (ml_noext mk)
+  /\ ml_central r = option_map (bi_ds m v) (ml_central mk) /\ ml_unknown r = option_map (bi_ds m v) (ml_unknown mk)
+  /\ ml_mixing r = ml_mixing mk /\ ml_midext r = ml_midext mk /\ ml_evo r = ml_evo mk /\ ml_symL r = ml_symL mk.
+Proof.
+  unfold dist_fin. destruct mk as [ext noext central unknown mixing midext evo symL].
+  destruct central as [c|], unknown as [k|]; cbn; repeat split; reflexivity.
+Qed.
+Lemma bi_ds_put2 m v b qTi qTc qLi qLc :
+  bi_ds m v (put2 L (put2 T b qTi qTc) qLi qLc) = b_with b (leaf_fin m v (b_ipsi b) qTi qLi) (leaf_fin m v (b_contra b) qTc qLc).
+Proof. reflexivity. Qed.
+
 Lemma fin_explicit m v q qTi qTc qTe mixo qLi qLc :
   dist_fin m v (spread_fin m q (qTi, qTc, qTe, mixo) (qLi, qLc)) = m_explicit m v q qTi qTc qTe mixo qLi qLc.
 Proof.
-  unfold spread_fin, m_explicit, dist_fin, lnl_fin, tumor_fin, with_central_T, leaf_fin, bi_ds.
-  destruct m as [[ei ec sTe sLe] [ni nc sTn sLn] central unknown mixing midext evo symL].
-  destruct central as [[ci cc sTc sLc]|], unknown as [[ki kc sTk sLk]|], mixo as [mix|], symL; reflexivity.
+  unfold spread_fin.
+  destruct (tumor_fin_fields (ml_with_midext m q) qTi qTc qTe mixo) as (T1 & T2 & T3 & T4 & T5 & T6 & T7 & T8).
+  destruct (lnl_fin_fields m (tumor_fin (ml_with_midext m q) qTi qTc qTe mixo) qLi qLc) as (L1 & L2 & L3 & L4 & L5 & L6 & L7 & L8).
+  destruct (dist_fin_fields m v (lnl_fin m (tumor_fin (ml_with_midext m q) qTi qTc qTe mixo) qLi qLc)) as (D1 & D2 & D3 & D4 & D5 & D6 & D7 & D8).
+  apply midline_ext; unfold m_explicit; cbn [ml_ext ml_noext ml_central ml_unknown ml_mixing ml_midext ml_evo ml_symL].
+  - rewrite D1, L1, T1. apply bi_ds_put2.
+  - rewrite D2, L2, T2. apply bi_ds_put2.
+  - rewrite D3, L3, T3. cbn [ml_central ml_with_midext]. destruct (ml_central m) as [c|]; [|reflexivity]. cbn [option_map]. f_equal; try apply bi_ds_put2.
+  - rewrite D4, L4, T4. reflexivity.
+  - rewrite D5, L5, T5. reflexivity.
+  - rewrite D6, L6, T6. reflexivity.
+  - rewrite D7, L7, T7. reflexivity.
+  - rewrite D8, L8, T8. reflexivity.
 Qed.
 
 (** * [m_accepts] says exactly when the call succeeds *)
@@ -976,18 +1030,27 @@ Section Bridge.
   Proof.
     assert (Hs : length (map lv (m_spread_keys m)) = ns) by (rewrite map_length; apply m_spread_keys_length, Hok).
     assert (Hd : length (map lv (DK m)) = nd) by (rewrite map_length; unfold DK; apply map_length).
-    rewrite (v_as_map m v Hnd Hl) at 1 2 3. rewrite (m_names_eq m Hok), !map_app. cbn [map].
+    pose proof (v_as_map m v Hnd Hl) as Hv. unfold vD. revert Hs Hd Hv. generalize (LV m v) as f. intros f Hs Hd Hv.
+    rewrite Hv. rewrite (m_names_eq m Hok), !map_app. cbn [map].
     split; [apply firstn_app_len, Hs|]. rewrite (skipn_app_len _ _ ns Hs). split; [apply firstn_app_len, Hd|].
     rewrite app_assoc. apply skipn_app_len. rewrite app_length. lia.
   Qed.
+
+  Lemma map_app_nil (K : list path) : map (app []) K = K.
+  Proof. induction K as [|k K IH]; [reflexivity|]. change (map (app []) (k :: K)) with (k :: map (app []) K). f_equal. exact IH. Qed.
+  Lemma vTi_eq : vTi m v = map lv (map (app ["ipsi"]) (TK m)). Proof. unfold vTi. rewrite map_map. reflexivity. Qed.
+  Lemma vTc_eq : vTc m v = map lv (map (app (cpre m)) (TK m)). Proof. unfold vTc. rewrite map_map. reflexivity. Qed.
+  Lemma vTe_eq : vTe m v = map lv (map (app ["ext"; "contra"]) (TK m)). Proof. unfold vTe. rewrite map_map. reflexivity. Qed.
+  Lemma vLi_eq : vLi m v = map lv (map (app (lpre m "ipsi")) (LK m)). Proof. unfold vLi. rewrite map_map. reflexivity. Qed.
+  Lemma vLc_eq : vLc m v = map lv (map (app (lpre m "contra")) (LK m)). Proof. unfold vLc. rewrite map_map. reflexivity. Qed.
 
   Lemma spread_keys_ok :
     is_some (all_unit (map lv (m_spread_keys m)))
     = is_some (tumor_vals m v) && is_some (lnl_vals m v).
   Proof.
-    unfold m_spread_keys, tumor_vals, lnl_vals, vTi, vTc, vTe, vLi, vLc, cpre, lpre.
-    destruct (ml_mixing m), (ml_symL m);
-      rewrite ?map_app, ?is_some_all_unit_app, ?map_app, ?is_some_all_unit_app, ?is_some_all_unit_one, !map_map; cbn [app];
+    unfold tumor_vals, lnl_vals. rewrite vTi_eq, vTc_eq, vTe_eq, vLi_eq, vLc_eq. unfold m_spread_keys, cpre, lpre.
+    destruct (ml_mixing m), (ml_symL m); rewrite ?map_app_nil;
+      rewrite ?map_app, ?is_some_all_unit_app, ?map_app, ?is_some_all_unit_app; cbn [map]; rewrite ?is_some_all_unit_one; unfold path;
       repeat match goal with |- context [all_unit ?l] => destruct (all_unit l) end;
       try destruct (check_unit (lv ["mixing"])); reflexivity.
   Qed.
@@ -1024,13 +1087,328 @@ Section Outcome.
   Lemma m_set_accept : m_accepts m v = true ->
     exists q qTi qTc qTe mixo qLi qLc,
       m_set_params m [] (mkw m v) = (m_explicit m v q qTi qTc qTe mixo qLi qLc, Some [])
-      /\ tumor_vals m v = Some (qTi, qTc, qTe, mixo) /\ lnl_vals m v = Some (qLi, qLc).
+      /\ tumor_vals m v = Some (qTi, qTc, qTe, mixo) /\ lnl_vals m v = Some (qLi, qLc)
+      /\ check_unit (LV m v ["midext"; "prob"]) = Some q /\ dist_ok m v m = true.
   Proof.
     intros Hacc. rewrite (m_accepts_eq m v Hok Hnd Hl) in Hacc.
     pose proof (m_set_full m v Hok HN Hl) as Hs. unfold spread_vals in Hs.
     destruct (check_unit (LV m v ["midext"; "prob"])) as [q|]; [|discriminate].
     destruct (tumor_vals m v) as [[[[qTi qTc] qTe] mixo]|]; [|discriminate]. destruct (lnl_vals m v) as [[qLi qLc]|]; [|discriminate].
     cbn [is_some andb] in Hacc. rewrite (dist_ok_bd m v _ m (bis_dists_spread m q _ _)), Hacc, fin_explicit in Hs.
-    exists q, qTi, qTc, qTe, mixo, qLi, qLc. repeat split. exact Hs.
+    exists q, qTi, qTc, qTe, mixo, qLi, qLc. repeat split; [exact Hs | exact Hacc].
   Qed.
 End Outcome.
+
+(** * Two objects of the same configuration *)
+Lemma forallb_Forall2 {A} (R : A -> A -> Prop) (f1 f2 : A -> bool) l2 l1 :
+  Forall2 R l2 l1 -> (forall b2 b1, R b2 b1 -> f1 b1 = true -> f2 b2 = true) -> forallb f1 l1 = true -> forallb f2 l2 = true.
+Proof.
+  intros HF Himp. induction HF as [|b2 b1 r2 r1 HR HF IH]; [reflexivity|]. cbn [forallb]. rewrite !andb_true_iff.
+  intros [H1 H2]. split; [apply (Himp b2 b1 HR H1) | apply IH, H2].
+Qed.
+Lemma m_bis_sk m2 m1 : sk_mid m2 = sk_mid m1 -> Forall2 (fun b2 b1 => sk_bi b2 = sk_bi b1) (m_bis m2) (m_bis m1).
+Proof.
+  intros H. unfold m_bis.
+  pose proof (sk_mid_ext m1 m2 H) as He. pose proof (sk_mid_noext m1 m2 H) as Hn.
+  pose proof (f_equal ml_central H) as Hc. pose proof (f_equal ml_unknown H) as Hk. cbn in Hc, Hk.
+  constructor; [exact He|]. constructor; [exact Hn|].
+  apply Forall2_app.
+  - destruct (ml_central m2), (ml_central m1); cbn in Hc |- *; try discriminate; constructor; [congruence | constructor].
+  - destruct (ml_unknown m2), (ml_unknown m1); cbn in Hk |- *; try discriminate; constructor; [apply sk_bi_of_dists; congruence | constructor].
+Qed.
+Lemma same_shape_sk u1 u2 w1 w2 : sk_uni u1 = sk_uni u2 -> sk_uni w1 = sk_uni w2 -> same_shape u1 w1 = true -> same_shape u2 w2 = true.
+Proof.
+  intros Hu Hw H. destruct (same_shape_parts _ _ H) as [Hs _]. unfold same_shape in *. apply andb_true_iff in H. destruct H as [Hb _].
+  destruct (sk_uni_inv _ _ Hu) as (_ & Hbu & _). destruct (sk_uni_inv _ _ Hw) as (_ & Hbw & _).
+  apply andb_true_iff. split; [rewrite <- Hbu, <- Hbw; exact Hb|].
+  apply shape_eqb_of_shape. rewrite <- (sk_shape _ _ Hu), <- (sk_shape _ _ Hw). exact Hs.
+Qed.
+Lemma same_dist_keys_sk u1 u2 w1 w2 : sk_uni u1 = sk_uni u2 -> sk_uni w1 = sk_uni w2 -> same_dist_keys u1 w1 = true -> same_dist_keys u2 w2 = true.
+Proof.
+  intros Hu Hw H. unfold same_dist_keys in *. apply keys_eqb_eq in H.
+  fold (u_dist_items u2) (u_dist_items w2). fold (u_dist_items u1) (u_dist_items w1) in H.
+  rewrite <- (u_dist_keys_sk _ _ Hu), <- (u_dist_keys_sk _ _ Hw), H. apply keys_eqb_refl.
+Qed.
+Lemma m_names_ok_sk m2 m1 : sk_mid m2 = sk_mid m1 -> m_names_ok m1 = true -> m_names_ok m2 = true.
+Proof.
+  intros Hsk H. pose proof (m_bis_sk m2 m1 Hsk) as HF.
+  pose proof (sk_mid_ext m1 m2 Hsk) as He. pose proof (sk_mid_noext m1 m2 Hsk) as Hn.
+  destruct (sk_bi_inv _ _ He) as (Hei & _ & HeT & _). destruct (sk_bi_inv _ _ Hn) as (_ & _ & HnT & _).
+  unfold m_names_ok in *. rewrite !andb_true_iff in H. destruct H as [[[[[H1 H2] H3] H4] H5] H6].
+  rewrite !andb_true_iff. repeat split.
+  - refine (forallb_Forall2 _ _ _ _ _ HF _ H1). intros b2 b1 HR Hb. apply (b_names_ok_sk b1 b2 (eq_sym HR) Hb).
+  - refine (forallb_Forall2 _ _ _ _ _ HF _ H2). intros b2 b1 HR Hb. destruct (sk_bi_inv _ _ HR) as (Hi & _).
+    apply andb_true_iff in Hb. destruct Hb as [Hs Hd]. apply andb_true_iff. unfold m_ei in *. split.
+    + apply (same_shape_sk _ _ _ _ (eq_sym Hei) (eq_sym Hi) Hs).
+    + apply (same_dist_keys_sk _ _ _ _ (eq_sym Hei) (eq_sym Hi) Hd).
+  - rewrite HeT. exact H3.
+  - rewrite HnT. exact H4.
+  - pose proof (f_equal ml_central Hsk) as Hc. cbn in Hc. destruct (ml_central m2) as [c2|], (ml_central m1) as [c1|]; cbn in Hc; try discriminate; [|reflexivity].
+    assert (Hcc : sk_bi c2 = sk_bi c1) by congruence. destruct (sk_bi_inv _ _ Hcc) as (_ & _ & HT & _). rewrite HT. exact H5.
+  - refine (forallb_Forall2 _ _ _ _ _ HF _ H6). intros b2 b1 HR Hb. destruct (sk_bi_inv _ _ HR) as (_ & _ & _ & HL).
+    rewrite HL, (f_equal ml_symL Hsk : ml_symL m2 = ml_symL m1). exact Hb.
+Qed.
+
+Lemma keys_sk m2 m1 : m_names_ok m1 = true -> sk_mid m2 = sk_mid m1 -> TK m2 = TK m1 /\ LK m2 = LK m1 /\ DK m2 = DK m1.
+Proof.
+  intros H Hsk. pose proof (sk_mid_ext m1 m2 Hsk) as He. destruct (sk_bi_inv _ _ He) as (Hei & _). unfold TK, LK, DK, m_ei.
+  split; [apply (sk_sel_keys is_tumor_spread _ _ kind_sel_tumor Hei)|].
+  split; [apply (sk_sel_keys sel_lnl _ _ kind_sel_lnl Hei) | apply (u_dist_keys_sk _ _ Hei)].
+Qed.
+Lemma mixing_sk m2 m1 : sk_mid m2 = sk_mid m1 -> (ml_mixing m2 = None <-> ml_mixing m1 = None).
+Proof.
+  intros H. pose proof (f_equal ml_mixing H) as Hm. cbn in Hm. destruct (ml_mixing m2), (ml_mixing m1); cbn in Hm; try discriminate; split; intros; try discriminate; reflexivity.
+Qed.
+Lemma m_names_sk m2 m1 : m_names_ok m1 = true -> sk_mid m2 = sk_mid m1 -> m_names m2 = m_names m1.
+Proof.
+  intros H Hsk. pose proof (m_names_ok_sk m2 m1 Hsk H) as H2. rewrite (m_names_eq m2 H2), (m_names_eq m1 H).
+  destruct (keys_sk m2 m1 H Hsk) as (HT & HL & HD). unfold m_spread_keys. rewrite HT, HL, HD, (f_equal ml_symL Hsk : ml_symL m2 = ml_symL m1).
+  pose proof (mixing_sk m2 m1 Hsk) as Hm. destruct (ml_mixing m2), (ml_mixing m1); try reflexivity.
+  - pose proof (proj2 Hm eq_refl) as Hx. discriminate Hx.
+  - pose proof (proj1 Hm eq_refl) as Hx. discriminate Hx.
+Qed.
+
+(** * The Midline theorems of C12 *)
+Theorem mid_invalid_position : C12_mid_invalid_position_stmt.
+Proof.
+  intros m v i x Hl Hn Hx. unfold m_accepts.
+  set (ns := length (m_spread_items m)) in *. set (nd := length (u_dist_items (m_ei m))).
+  assert (Hlen : length (m_items m) = ns + nd + 1) by (unfold m_items; rewrite !app_length; cbn [length]; fold ns nd; lia).
+  assert (Hi : i < length v) by (apply nth_error_Some; rewrite Hn; discriminate).
+  destruct (Nat.lt_ge_cases i ns) as [Hlt|Hge].
+  - assert (Hc : check_unit x = None) by (destruct Hx as [->|[_ Hc]]; [reflexivity | exact Hc]).
+    rewrite (all_unit_nth_None _ i x); [reflexivity | rewrite nth_error_firstn by exact Hlt; exact Hn | exact Hc].
+  - destruct (Nat.eq_dec i (ns + nd)) as [->|Hne].
+    + assert (Hc : check_unit x = None) by (destruct Hx as [->|[_ Hc]]; [reflexivity | exact Hc]).
+      rewrite (all_unit_nth_None (skipn (ns + nd) v) 0 x); [cbn [is_some]; rewrite andb_false_r; reflexivity | | exact Hc].
+      rewrite nth_error_skipn, Nat.add_0_r. exact Hn.
+    + destruct Hx as [->|[[Hlt|Heq] _]]; [| lia | lia].
+      unfold m_unis, m_bis. cbn [app flat_map forallb]. fold (m_ei m).
+      rewrite (dists_put_Bad (u_maxt (m_ei m)) (u_dists (m_ei m)) _ (i - ns)).
+      * cbn [is_some andb]. apply andb_false_r.
+      * rewrite nth_error_firstn by lia. rewrite nth_error_skipn. replace (ns + (i - ns)) with i by lia. exact Hn.
+      * fold (u_dist_items (m_ei m)). fold nd. lia.
+Qed.
+
+Section MidTheorems.
+  Hypothesis HN : mid_names_nodup_stmt.
+
+  Lemma param_names_mid m : m_names_ok m = true -> param_names (MMid m) = Some (m_names m).
+  Proof.
+    intros H. destruct (HN m H) as [Hg _]. change (param_names (MMid m)) with (option_map (map fst) (m_got m)). rewrite Hg. reflexivity.
+  Qed.
+  Lemma m_names_length m : length (m_names m) = length (m_items m).
+  Proof. apply map_length. Qed.
+
+  Theorem mid_invalid_gives_minus_inf : C12_mid_invalid_gives_minus_inf_stmt.
+  Proof.
+    intros R lik m v g H Hl Hacc Hg.
+    rewrite (likelihood_both_forms R lik None (MMid m) (m_names m) v g).
+    - cbn [set_params fst snd]. pose proof (m_set_reject m v H HN Hl Hacc) as Hf. unfold mkw in Hf.
+      destruct (m_set_params m [] (combine (m_names m) v)) as [m' o]. cbn [snd] in *. subst o. reflexivity.
+    - unfold named_params. rewrite (param_names_mid m H). reflexivity.
+    - apply (HN m H).
+    - rewrite m_names_length. exact Hl.
+    - exact Hg.
+  Qed.
+
+  Theorem mid_given_params_scored : mid_set_get_keyword_stmt -> C12_mid_given_params_scored_stmt.
+  Proof.
+    intros HK R lik m v g H Hl Hacc Hg m'.
+    assert (Hlv : length (vals v) = length (m_items m)) by (rewrite vals_length; exact Hl).
+    destruct (m_set_accept m (vals v) H HN Hlv Hacc) as (q & qTi & qTc & qTe & mixo & qLi & qLc & Hset & _).
+    unfold mkw in Hset. fold (kw_of (m_names m) v) in Hset.
+    pose proof (HK m v H Hl) as Hk. cbv zeta in Hk. rewrite Hset in Hk. cbn [fst snd] in Hk. destruct Hk as [Hv Hn]; [discriminate|].
+    rewrite (likelihood_both_forms R lik None (MMid m) (m_names m) (vals v) g).
+    - cbn [set_params]. fold (kw_of (m_names m) v). subst m'. rewrite Hset. cbn [fst snd]. split; [reflexivity|]. split; assumption.
+    - unfold named_params. rewrite (param_names_mid m H). reflexivity.
+    - apply (HN m H).
+    - rewrite m_names_length. exact Hlv.
+    - exact Hg.
+  Qed.
+End MidTheorems.
+
+Lemma forallb_Forall2_eq {A} (R : A -> A -> Prop) (f1 f2 : A -> bool) l2 l1 :
+  Forall2 R l2 l1 -> (forall b2 b1, R b2 b1 -> f2 b2 = f1 b1) -> forallb f2 l2 = forallb f1 l1.
+Proof. intros HF Himp. induction HF as [|b2 b1 r2 r1 HR HF IH]; [reflexivity|]. cbn [forallb]. rewrite (Himp b2 b1 HR), IH. reflexivity. Qed.
+Lemma u_with_dists_sk u1 u2 ds : sk_uni_dists u1 = sk_uni_dists u2 -> u_with_dists u1 ds = u_with_dists u2 ds.
+Proof.
+  intros H. unfold u_with_dists. rewrite (f_equal u_graph H : u_graph u1 = u_graph u2), (f_equal u_mods H : u_mods u1 = u_mods u2),
+    (f_equal u_maxt H : u_maxt u1 = u_maxt u2). reflexivity.
+Qed.
+
+Section MidAbsorb.
+  Hypothesis HN : mid_names_nodup_stmt.
+  Variables (m1 m2 : midline) (v : list val).
+  Hypothesis H1 : m_names_ok m1 = true.
+  Hypothesis Hsk : sk_mid m2 = sk_mid m1.
+  Hypothesis Hl : length v = length (m_items m1).
+
+  Let H2 : m_names_ok m2 = true := m_names_ok_sk m2 m1 Hsk H1.
+  Let Hn : m_names m2 = m_names m1 := m_names_sk m2 m1 H1 Hsk.
+  Lemma Hl2 : length v = length (m_items m2).
+  Proof. rewrite <- (map_length fst (m_items m2)). fold (m_names m2). rewrite Hn. unfold m_names. rewrite map_length. exact Hl. Qed.
+  Lemma LV_sk : LV m2 v = LV m1 v.
+  Proof. unfold LV, mkw. rewrite Hn. reflexivity. Qed.
+  Lemma vD_sk : vD m2 v = vD m1 v.
+  Proof. unfold vD. destruct (keys_sk m2 m1 H1 Hsk) as (_ & _ & HD). rewrite LV_sk, HD. reflexivity. Qed.
+  Lemma tumor_vals_sk : tumor_vals m2 v = tumor_vals m1 v.
+  Proof.
+    unfold tumor_vals, vTi, vTc, vTe, cpre. destruct (keys_sk m2 m1 H1 Hsk) as (HT & _ & _). rewrite LV_sk, HT.
+    pose proof (mixing_sk m2 m1 Hsk) as Hm. destruct (ml_mixing m2), (ml_mixing m1); try reflexivity.
+    - pose proof (proj2 Hm eq_refl) as Hx. discriminate Hx.
+    - pose proof (proj1 Hm eq_refl) as Hx. discriminate Hx.
+  Qed.
+  Lemma lnl_vals_sk : lnl_vals m2 v = lnl_vals m1 v.
+  Proof.
+    unfold lnl_vals, vLi, vLc, lpre. destruct (keys_sk m2 m1 H1 Hsk) as (_ & HL & _).
+    rewrite LV_sk, HL, (f_equal ml_symL Hsk : ml_symL m2 = ml_symL m1). reflexivity.
+  Qed.
+  Lemma leaf_ds_sk u2 u1 : sk_uni u2 = sk_uni u1 -> leaf_ds m2 v u2 = leaf_ds m1 v u1.
+  Proof.
+    intros H. unfold leaf_ds. destruct (sk_uni_inv _ _ H) as (_ & _ & _ & _ & _ & Hd & Hm). rewrite vD_sk, Hm. apply dists_put_sk, Hd.
+  Qed.
+  Lemma bi_ds_ok_sk b2 b1 : sk_bi b2 = sk_bi b1 -> bi_ds_ok m2 v b2 = bi_ds_ok m1 v b1.
+  Proof.
+    intros H. destruct (sk_bi_inv _ _ H) as (Hi & Hc & _). unfold bi_ds_ok. rewrite (leaf_ds_sk _ _ Hi), (leaf_ds_sk _ _ Hc). reflexivity.
+  Qed.
+  Lemma dist_ok_sk : dist_ok m2 v m2 = dist_ok m1 v m1.
+  Proof. unfold dist_ok. apply (forallb_Forall2_eq _ _ _ _ _ (m_bis_sk m2 m1 Hsk)). intros b2 b1 HR. apply bi_ds_ok_sk, HR. Qed.
+  Lemma m_accepts_sk : m_accepts m2 v = m_accepts m1 v.
+  Proof.
+    rewrite (m_accepts_eq m2 v H2 (proj2 (HN m2 H2)) Hl2), (m_accepts_eq m1 v H1 (proj2 (HN m1 H1)) Hl).
+    rewrite LV_sk, tumor_vals_sk, lnl_vals_sk, dist_ok_sk. reflexivity.
+  Qed.
+
+  Lemma leaf_fin_sk u2 u1 qT qL : sk_uni u2 = sk_uni u1 -> like_ei m1 u1 ->
+    length qT = length (TK m1) -> length qL = length (LK m1) -> leaf_ds m1 v u1 <> None ->
+    leaf_fin m2 v u2 qT qL = leaf_fin m1 v u1 qT qL.
+  Proof.
+    intros H (Hok1 & HT & HL & _) HlT HlL Hds. unfold leaf_fin, force_ds.
+    change (leaf_ds m2 v (u_put_sel sel_lnl (u_put_sel is_tumor_spread u2 qT) qL)) with (leaf_ds m2 v u2).
+    change (leaf_ds m1 v (u_put_sel sel_lnl (u_put_sel is_tumor_spread u1 qT) qL)) with (leaf_ds m1 v u1).
+    rewrite (leaf_ds_sk u2 u1 H). destruct (leaf_ds m1 v u1) as [ds|]; [|contradiction].
+    symmetry. apply leaf_absorb; [symmetry; exact H | |].
+    - rewrite <- (map_length fst), HT. exact HlT.
+    - rewrite <- (map_length fst), HL. exact HlL.
+  Qed.
+End MidAbsorb.
+
+Lemma tumor_vals_lengths m v qTi qTc qTe mixo : tumor_vals m v = Some (qTi, qTc, qTe, mixo) ->
+  length qTi = length (TK m) /\ length qTc = length (TK m)
+  /\ length (match mixo with Some mix => mixed mix qTi qTc | None => qTe end) = length (TK m).
+Proof.
+  unfold tumor_vals. destruct (all_unit (vTi m v)) as [a|] eqn:EA; [|discriminate]. destruct (all_unit (vTc m v)) as [b|] eqn:EB; [|discriminate].
+  apply all_unit_length in EA, EB. unfold vTi, vTc in *. rewrite map_length in EA, EB.
+  destruct (ml_mixing m).
+  - destruct (check_unit _) as [mix|]; [|discriminate]. intros [= <- <- <- <-]. repeat split; try assumption. rewrite mixed_length; [exact EA | exact (eq_trans EA (eq_sym EB))].
+  - destruct (all_unit (vTe m v)) as [e|] eqn:EE; [|discriminate]. apply all_unit_length in EE. unfold vTe in EE. rewrite map_length in EE.
+    intros [= <- <- <- <-]. repeat split; assumption.
+Qed.
+Lemma lnl_vals_lengths m v qLi qLc : lnl_vals m v = Some (qLi, qLc) ->
+  length qLi = length (LK m) /\ length qLc = length (LK m).
+Proof.
+  unfold lnl_vals. destruct (all_unit (vLi m v)) as [a|] eqn:EA; [|discriminate]. destruct (all_unit (vLc m v)) as [b|] eqn:EB; [|discriminate].
+  apply all_unit_length in EA, EB. unfold vLi, vLc in *. rewrite map_length in EA, EB. intros [= <- <-]. split; assumption.
+Qed.
+
+Section MidAbsorb2.
+  Hypothesis HN : mid_names_nodup_stmt.
+  Variables (m1 m2 : midline) (v : list val).
+  Hypothesis H1 : m_names_ok m1 = true.
+  Hypothesis Hsk : sk_mid m2 = sk_mid m1.
+  Hypothesis Hl : length v = length (m_items m1).
+
+  Lemma bi_fin_sk b2 b1 qTi qTc qLi qLc : sk_bi b2 = sk_bi b1 -> In b1 (m_bis m1) ->
+    length qTi = length (TK m1) -> length qTc = length (TK m1) -> length qLi = length (LK m1) -> length qLc = length (LK m1) ->
+    bi_ds_ok m1 v b1 = true ->
+    b_with b2 (leaf_fin m2 v (b_ipsi b2) qTi qLi) (leaf_fin m2 v (b_contra b2) qTc qLc)
+    = b_with b1 (leaf_fin m1 v (b_ipsi b1) qTi qLi) (leaf_fin m1 v (b_contra b1) qTc qLc).
+  Proof.
+    intros Hb Hin L1 L2 L3 L4 Hds. destruct (sk_bi_inv _ _ Hb) as (Hi & Hc & HT & HL).
+    destruct (m_ok_bi m1 b1 H1 Hin) as (_ & Hli & Hlc & _).
+    unfold bi_ds_ok in Hds. apply andb_true_iff in Hds. destruct Hds as [Hdi Hdc].
+    unfold b_with. rewrite HT, HL.
+    rewrite (leaf_fin_sk m1 m2 v H1 Hsk _ _ qTi qLi Hi Hli L1 L3) by (destruct (leaf_ds m1 v (b_ipsi b1)); [discriminate | discriminate Hdi]).
+    rewrite (leaf_fin_sk m1 m2 v H1 Hsk _ _ qTc qLc Hc Hlc L2 L4) by (destruct (leaf_ds m1 v (b_contra b1)); [discriminate | discriminate Hdc]).
+    reflexivity.
+  Qed.
+  Lemma bi_ds_sk k2 k1 : sk_bi_dists k2 = sk_bi_dists k1 -> bi_ds_ok m1 v k1 = true -> bi_ds m2 v k2 = bi_ds m1 v k1.
+  Proof.
+    intros Hk Hds. unfold bi_ds_ok in Hds. apply andb_true_iff in Hds. destruct Hds as [Hdi Hdc].
+    pose proof (f_equal b_ipsi Hk) as Hi. pose proof (f_equal b_contra Hk) as Hc. cbn in Hi, Hc.
+    pose proof (f_equal b_symT Hk) as HT. pose proof (f_equal b_symL Hk) as HL. cbn in HT, HL.
+    unfold bi_ds, b_with, force_ds. rewrite HT, HL.
+    rewrite (leaf_ds_sk m1 m2 v H1 Hsk _ _ (sk_uni_of_dists _ _ Hi)), (leaf_ds_sk m1 m2 v H1 Hsk _ _ (sk_uni_of_dists _ _ Hc)).
+    destruct (leaf_ds m1 v (b_ipsi k1)) as [dsi|]; [|discriminate Hdi]. destruct (leaf_ds m1 v (b_contra k1)) as [dsc|]; [|discriminate Hdc].
+    rewrite (u_with_dists_sk _ _ dsi Hi), (u_with_dists_sk _ _ dsc Hc). reflexivity.
+  Qed.
+
+  Lemma m_explicit_sk q qTi qTc qTe mixo qLi qLc :
+    tumor_vals m1 v = Some (qTi, qTc, qTe, mixo) -> lnl_vals m1 v = Some (qLi, qLc) -> dist_ok m1 v m1 = true ->
+    m_explicit m2 v q qTi qTc qTe mixo qLi qLc = m_explicit m1 v q qTi qTc qTe mixo qLi qLc.
+  Proof.
+    intros Htv Hlv Hd. destruct (tumor_vals_lengths _ _ _ _ _ _ Htv) as (LTi & LTc & LTe). destruct (lnl_vals_lengths _ _ _ _ Hlv) as (LLi & LLc).
+    assert (HsL : ml_symL m2 = ml_symL m1) by exact (f_equal ml_symL Hsk).
+    assert (LLc' : length (if ml_symL m1 then qLi else qLc) = length (LK m1)) by (destruct (ml_symL m1); assumption).
+    unfold dist_ok in Hd. rewrite forallb_forall in Hd.
+    apply midline_ext; unfold m_explicit; cbn [ml_ext ml_noext ml_central ml_unknown ml_mixing ml_midext ml_evo ml_symL]; rewrite ?HsL.
+    - apply bi_fin_sk; try assumption; [apply sk_mid_ext, Hsk | apply m_ok_ext, H1 | apply Hd, m_ok_ext, H1].
+    - apply bi_fin_sk; try assumption; [apply sk_mid_noext, Hsk | apply m_ok_noext, H1 | apply Hd, m_ok_noext, H1].
+    - pose proof (f_equal ml_central Hsk) as Hc. cbn in Hc. destruct (ml_central m2) as [c2|], (ml_central m1) as [c1|] eqn:E1; cbn in Hc; try discriminate; [|reflexivity].
+      cbn [option_map]. f_equal. apply bi_fin_sk; try assumption; [congruence | apply m_ok_central, E1 | apply Hd, m_ok_central, E1].
+    - pose proof (f_equal ml_unknown Hsk) as Hk. cbn in Hk. destruct (ml_unknown m2) as [k2|], (ml_unknown m1) as [k1|] eqn:E1; cbn in Hk; try discriminate; [|reflexivity].
+      cbn [option_map]. f_equal. apply bi_ds_sk; [congruence | apply Hd, m_ok_unknown, E1].
+    - pose proof (f_equal ml_mixing Hsk) as Hm. cbn in Hm. destruct mixo; [reflexivity|].
+      unfold tumor_vals in Htv. destruct (all_unit (vTi m1 v)); [|discriminate]. destruct (all_unit (vTc m1 v)); [|discriminate].
+      destruct (ml_mixing m1) eqn:E1; [destruct (check_unit _); discriminate|]. destruct (ml_mixing m2); [discriminate | reflexivity].
+    - reflexivity.
+    - exact (f_equal ml_evo Hsk).
+    - reflexivity.
+  Qed.
+End MidAbsorb2.
+
+Section MidTheorems2.
+  Hypothesis HN : mid_names_nodup_stmt.
+
+  Theorem mid_full_assignment_absorbing : C12_mid_full_assignment_absorbing_stmt.
+  Proof.
+    intros m1 m2 v H1 Hsk12 Hl Hacc. pose proof (eq_sym Hsk12) as Hsk.
+    assert (Hlv : length (vals v) = length (m_items m1)) by (rewrite vals_length; exact Hl).
+    pose proof (m_names_ok_sk m2 m1 Hsk H1) as H2. pose proof (m_names_sk m2 m1 H1 Hsk) as Hn.
+    pose proof (Hl2 m1 m2 (vals v) H1 Hsk Hlv) as Hlv2.
+    assert (Hacc2 : m_accepts m2 (vals v) = true) by (rewrite (m_accepts_sk HN m1 m2 (vals v) H1 Hsk Hlv); exact Hacc).
+    destruct (m_set_accept m1 (vals v) H1 HN Hlv Hacc) as (q & qTi & qTc & qTe & mixo & qLi & qLc & Hset1 & Htv & Hlnl & Hq & Hd).
+    destruct (m_set_accept m2 (vals v) H2 HN Hlv2 Hacc2) as (q' & qTi' & qTc' & qTe' & mixo' & qLi' & qLc' & Hset2 & Htv' & Hlnl' & Hq' & _).
+    rewrite (tumor_vals_sk m1 m2 (vals v) H1 Hsk), Htv in Htv'. injection Htv' as <- <- <- <-.
+    rewrite (lnl_vals_sk m1 m2 (vals v) H1 Hsk), Hlnl in Hlnl'. injection Hlnl' as <- <-.
+    rewrite (LV_sk m1 m2 (vals v) H1 Hsk), Hq in Hq'. injection Hq' as <-.
+    unfold mkw in Hset1, Hset2. rewrite Hn in Hset2. unfold kw_of. rewrite Hset1, Hset2. split; [|reflexivity].
+    f_equal. symmetry. apply (m_explicit_sk m1 m2 (vals v) H1 Hsk); assumption.
+  Qed.
+
+  Lemma after_given_mid R (lik : model -> R) np m gs : exists m1, after_given R lik np (MMid m) gs = MMid m1 /\ sk_mid m1 = sk_mid m.
+  Proof.
+    pose proof (config_preserved R lik np (MMid m) gs) as H. unfold same_config in H.
+    destruct (after_given R lik np (MMid m) gs) as [u1|b1|ml|h]; cbn [sk_model] in H; try discriminate.
+    apply MMid_inj in H. exists ml. split; [reflexivity | exact H].
+  Qed.
+
+  Theorem mid_rejected_then_valid : C12_mid_rejected_then_valid_stmt.
+  Proof.
+    intros R lik m m0 gs v g H Hcfg Hl Hacc Hg.
+    destruct (after_given_mid R lik None m gs) as (m1 & -> & Hsk1).
+    unfold same_config in Hcfg. cbn [sk_model] in Hcfg. apply MMid_inj in Hcfg. rename Hcfg into Hsk0.
+    pose proof (m_names_ok_sk m1 m Hsk1 H) as H1. pose proof (m_names_ok_sk m0 m (eq_sym Hsk0) H) as H0.
+    pose proof (m_names_sk m1 m H Hsk1) as Hn1. pose proof (m_names_sk m0 m H (eq_sym Hsk0)) as Hn0.
+    assert (Hlen : length (vals v) = length (m_names m)) by (rewrite vals_length, m_names_length; exact Hl).
+    rewrite (likelihood_both_forms R lik None (MMid m1) (m_names m) (vals v) g);
+      [| unfold named_params; rewrite (param_names_mid HN m1 H1), Hn1; reflexivity | apply (HN m H) | exact Hlen | exact Hg].
+    rewrite (likelihood_both_forms R lik None (MMid m0) (m_names m) (vals v) g);
+      [| unfold named_params; rewrite (param_names_mid HN m0 H0), Hn0; reflexivity | apply (HN m H) | exact Hlen | exact Hg].
+    cbn [set_params]. fold (kw_of (m_names m) v).
+    destruct (mid_full_assignment_absorbing m m1 v H (eq_sym Hsk1) Hl Hacc) as [E1 _].
+    destruct (mid_full_assignment_absorbing m m0 v H Hsk0 Hl Hacc) as [E0 _].
+    rewrite <- E1, <- E0. reflexivity.
+  Qed.
+End MidTheorems2.
